@@ -521,6 +521,9 @@ func (u *Unit) evalInner(st *State, env *SpecEnv, e *Spec) (Val, error) {
 				}
 			case *types.Slice:
 				b, o, _, _ := sliceParts(a)
+				if u.ixCollect != nil {
+					*u.ixCollect = append(*u.ixCollect, i)
+				}
 				locs := u.elemLocs(t.Elem(), b, fmt.Sprintf("(+ %s %s)", o, i))
 				ts := make([]Term, len(locs))
 				for k, l := range locs {
@@ -872,6 +875,86 @@ func (u *Unit) evalCall(st *State, env *SpecEnv, e *Spec) (Val, error) {
 		default:
 			return intVal(sInt(int64(strings.Count(a, b)))), nil
 		}
+	case "addr":
+		// addr(x): the cell of a local variable of the function under contract that escapes
+		// (captured by a closure, or its address taken)
+		if len(e.Args) != 1 || e.Args[0].Kind != SIdent {
+			return Val{}, fmt.Errorf("addr(localVariable)")
+		}
+		if env.fr != nil {
+			if a := u.findLocal(env.fr, e.Args[0].Name); a != nil && a.Heap {
+				if pv, ok := u.frameOf(st, env.fr).regs[a]; ok {
+					return pv, nil
+				}
+				return Val{T: a.Type(), Terms: []Term{"0"}}, nil
+			}
+		}
+		if pv, ok := env.freePtrs[e.Args[0].Name]; ok {
+			return pv, nil
+		}
+		return Val{}, fmt.Errorf("addr: %s is not an escaping local variable", e.Args[0].Name)
+	case "isclo", "capt", "captptr":
+		// closures as values: isclo(f, "$3") - f is a closure of anonymous function <root>$3 of the
+		// function the contract belongs to; capt(f, "$3", v) - current value of the variable v it
+		// captured; captptr(f, "$3", v) - the captured cell itself (== &v in the creator)
+		want := 2
+		if e.Name != "isclo" {
+			want = 3
+		}
+		if len(e.Args) != want || e.Args[1].Kind != SStr {
+			return Val{}, fmt.Errorf("%s(f, \"$N\"%s)", e.Name, map[bool]string{true: ", var", false: ""}[want == 3])
+		}
+		f, err := u.eval(st, env, e.Args[0])
+		if err != nil {
+			return Val{}, err
+		}
+		if len(f.Terms) != 1 {
+			return Val{}, fmt.Errorf("%s: not a function value", e.Name)
+		}
+		root := env.fn
+		if root == nil {
+			root = u.fn
+		}
+		for root.Parent() != nil {
+			root = root.Parent()
+		}
+		var target *ssa.Function
+		var walk func(fn *ssa.Function)
+		walk = func(fn *ssa.Function) {
+			for _, a := range fn.AnonFuncs {
+				if a.Name() == root.Name()+e.Args[1].Str {
+					target = a
+				}
+				walk(a)
+			}
+		}
+		walk(root)
+		if target == nil {
+			return Val{}, fmt.Errorf("%s: no anonymous function %s%s", e.Name, root.Name(), e.Args[1].Str)
+		}
+		if e.Name == "isclo" {
+			return boolVal(fmt.Sprintf("(= (fnid %s) %d)", f.Terms[0], u.fnID(target))), nil
+		}
+		vn := e.Args[2].String()
+		for j, fvar := range target.FreeVars {
+			if fvar.Name() == vn {
+				pv := Val{T: fvar.Type(), Terms: []Term{fmt.Sprintf("(capv %s %d)", f.Terms[0], j)}}
+				// a closure that exists in this state captured cells that were allocated before it
+				fact := fmt.Sprintf("(=> (= (fnid %s) %d) (and (< 0 %s) (<= %s %s)))", f.Terms[0], u.fnID(target), pv.Terms[0], pv.Terms[0], st.alloc)
+				if strings.Contains(fact, "qi_") {
+					if u.qSide != nil {
+						*u.qSide = append(*u.qSide, fact)
+					}
+				} else if !strings.Contains(fact, "q_") {
+					u.sideFacts = append(u.sideFacts, fact)
+				}
+				if e.Name == "captptr" {
+					return pv, nil
+				}
+				return u.specLoad(st, pv)
+			}
+		}
+		return Val{}, fmt.Errorf("%s: %s does not capture %s", e.Name, target.Name(), vn)
 	case "closureof":
 		// closureof(f, Name): Go-side knowledge that f is (a closure of) the named function
 		if len(e.Args) != 2 {
@@ -1104,12 +1187,75 @@ func (u *Unit) harvest(st *State, env *SpecEnv, e *Spec, ante Term, depth int) {
 		}
 		u.freshN++
 		bv := fmt.Sprintf("qi_%s!%d$", mangle(e.Name), u.freshN)
-		body, err := u.evalBool(st, env.with(e.Name, Val{T: tInt, Terms: []Term{bv}}), e.A)
+		envb := env.with(e.Name, Val{T: tInt, Terms: []Term{bv}})
+		// nested range forall (possibly under antecedents): a two-variable fact
+		{
+			inner := e.A
+			var ants []*Spec
+			for inner != nil && inner.Kind == SBinary && inner.Op == "==>" {
+				ants = append(ants, inner.A)
+				inner = inner.B
+			}
+			if inner != nil && inner.Kind == SQuant && inner.Op == "forall" && inner.B != nil {
+				lo2, e1 := u.evalInt(st, envb, inner.B)
+				hi2, e2 := u.evalInt(st, envb, inner.C)
+				if e1 != nil || e2 != nil {
+					return
+				}
+				u.freshN++
+				bv2 := fmt.Sprintf("qi_%s!%d$", mangle(inner.Name), u.freshN)
+				envbb := envb.with(inner.Name, Val{T: tInt, Terms: []Term{bv2}})
+				guard := []Term{fmt.Sprintf("(and (<= %s %s) (< %s %s))", lo, bv, bv, hi), fmt.Sprintf("(and (<= %s %s) (< %s %s))", lo2, bv2, bv2, hi2)}
+				for _, a := range ants {
+					at, err := u.evalBool(st, envbb, a)
+					if err != nil {
+						return
+					}
+					guard = append(guard, at)
+				}
+				body, err := u.evalBool(st, envbb, inner.A)
+				if err != nil {
+					return
+				}
+				q := qfact{ante: ante, bv: bv, bv2: bv2, impl: sImp(sAnd(guard...), body)}
+				st.qfacts = append(append([]qfact(nil), st.qfacts...), q)
+				for _, a := range st.ixterms {
+					for _, b := range st.ixterms {
+						st.assume(sImp(q.ante, strings.ReplaceAll(strings.ReplaceAll(q.impl, q.bv, a), q.bv2, b)))
+					}
+				}
+				return
+			}
+		}
+		var coll, side []Term
+		savedColl, savedSide := u.ixCollect, u.qSide
+		u.ixCollect, u.qSide = &coll, &side
+		body, err := u.evalBool(st, envb, e.A)
+		u.ixCollect, u.qSide = savedColl, savedSide
 		if err != nil {
 			return
 		}
+		if len(side) > 0 {
+			seenS := map[Term]bool{}
+			var us []Term
+			for _, f := range side {
+				if !seenS[f] && len(us) < 8 {
+					seenS[f] = true
+					us = append(us, f)
+				}
+			}
+			body = sAnd(append([]Term{body}, us...)...)
+		}
 		impl := sImp(fmt.Sprintf("(and (<= %s %s) (< %s %s))", lo, bv, bv, hi), body)
-		st.qfacts = append(append([]qfact(nil), st.qfacts...), qfact{ante: ante, bv: bv, impl: impl})
+		q := qfact{ante: ante, bv: bv, impl: impl}
+		seenD := map[Term]bool{}
+		for _, d := range coll {
+			if d != bv && strings.Contains(d, bv) && !seenD[d] && len(q.derived) < 4 {
+				seenD[d] = true
+				q.derived = append(q.derived, d)
+			}
+		}
+		st.qfacts = append(append([]qfact(nil), st.qfacts...), q)
 	case SCall:
 		if e.A != nil {
 			return
@@ -1161,8 +1307,49 @@ func (u *Unit) harvest(st *State, env *SpecEnv, e *Spec, ante Term, depth int) {
 
 // instantiate adds the instances of all harvested quantified facts at index term iv.
 func (u *Unit) instantiate(st *State, iv Term) {
+	u.instantiateAt(st, iv, true)
+}
+
+func (u *Unit) instantiateAt(st *State, iv Term, derive bool) {
+	known := false
+	for _, t := range st.ixterms {
+		if t == iv {
+			known = true
+		}
+	}
+	var more []Term
 	for _, q := range st.qfacts {
+		if q.bv2 != "" {
+			if known {
+				continue
+			}
+			// two-variable fact: all pairs with the index terms seen so far (most recent 10)
+			ts := st.ixterms
+			if len(ts) > 10 {
+				ts = ts[len(ts)-10:]
+			}
+			inst := func(a, b Term) {
+				st.assume(sImp(q.ante, strings.ReplaceAll(strings.ReplaceAll(q.impl, q.bv, a), q.bv2, b)))
+			}
+			inst(iv, iv)
+			for _, t := range ts {
+				inst(iv, t)
+				inst(t, iv)
+			}
+			continue
+		}
 		st.assume(sImp(q.ante, strings.ReplaceAll(q.impl, q.bv, iv)))
+		if derive {
+			for _, d := range q.derived {
+				more = append(more, strings.ReplaceAll(d, q.bv, iv))
+			}
+		}
+	}
+	if !known {
+		st.ixterms = append(append([]Term(nil), st.ixterms...), iv)
+	}
+	for _, m := range more {
+		u.instantiateAt(st, m, false)
 	}
 }
 
